@@ -40,6 +40,11 @@ def run(repo, chk, tier):
     from .c01_domain import check_acos_domain
 
     check_acos_domain(repo, chk)
+    # the helicity axes the einsum contracts are named per chain (amp_index(base_map)): a memo that ignores its
+    # argument would freeze the names of the first chain (shared with C04 / C05 / C14 / C15)
+    from ..cacheown import check_memo_soundness
+
+    check_memo_soundness(repo, chk)
     chk.trusted_base[:] = ["AST->sympy translator sa/sym.py (tensor component model)", "sympy ring normaliser", "checker's Wigner reference (cross-checked against sympy)"]
     chk.info("not decided: the invariance of the density under a common rotation / boost / inversion / exchange itself (numerical); decided are necessary conditions of the three mechanisms the property names")
     nonneg(repo, chk)
